@@ -191,7 +191,9 @@ for _SN, _ENTRIES in self.document.items():
     for _EN, _EV in _ENTRIES.items():
         ___
         _DEF = self.all_parameters_dict.get(__KEY)
-        ___
+        if _DEF is None:
+            ___
+            continue
         if __MISSING:
             _VAL = _DEF.value
         elif _DEF.type is bool:
